@@ -20,6 +20,8 @@ func init() {
 			{ID: "C11.R4", Floor: 4, Doc: "rotation: per-layer modulo in roundRobbin; Pick passes the atomic counter unreduced", Run: c11r4},
 			{ID: "C11.R5", Floor: 3, Doc: "replica lists handed to the token-aware generator are duplicate-free by construction (=C10.R1)", Run: c10r1},
 			{ID: "C11.R6", Floor: 4, Doc: "slices taken from published host/token snapshots are never written (no in-place filter, sort, shuffle or element store; helpers followed)", Run: ruleSharedSlices},
+			{ID: "C11.R7", Floor: 4, Doc: "the replicas of a token are looked up in the range that owns it: whole-ring search, wrap to entry 0 (=C10.R9)", Run: c10r9},
+			{ID: "C11.R8", Floor: 1, Doc: "the token-aware policy takes the replicas from the map of the keyspace the query runs in", Run: c11r8},
 		},
 	})
 }
@@ -907,4 +909,45 @@ func neverStoredField(p *Program, f types.Object) bool {
 		})
 	})
 	return ok
+}
+
+// c11r8: replica placement is per keyspace. The token-aware generator must look the token up in the replica map of
+// the keyspace of the query it was asked about (qry.Keyspace()), not of the session's default keyspace or any other.
+func c11r8(p *Program, r *Report) {
+	fi := r.NeedFunc("(*tokenAwareHostPolicy).Pick")
+	if fi == nil {
+		return
+	}
+	replicasField := p.Field("clusterMeta", "replicas")
+	n := 0
+	for _, u := range p.unitsOf(fi) {
+		info := u.Pkg.TypesInfo
+		inspectNoLit(u.Decl.Body, func(x ast.Node) bool {
+			ix, ok := x.(*ast.IndexExpr)
+			if !ok || fieldOf(info, ix.X) == nil || fieldOf(info, ix.X) != replicasField {
+				return true
+			}
+			n++
+			_, key := p.resolveValue(u, ix.Index, 0)
+			okKey := false
+			why := exprStr(key)
+			if c, isCall := ast.Unparen(key).(*ast.CallExpr); isCall && len(c.Args) == 0 {
+				if sel, isSel := ast.Unparen(c.Fun).(*ast.SelectorExpr); isSel && sel.Sel.Name == "Keyspace" {
+					// the receiver is the query handed to Pick
+					rf, re := p.resolveValue(u, sel.X, 0)
+					if id, isId := ast.Unparen(re).(*ast.Ident); isId && rf == fi {
+						if po := paramObj(fi.Pkg.TypesInfo, fi.Decl.Type, 0); po != nil && fi.Pkg.TypesInfo.Uses[id] == po {
+							okKey = true
+						}
+					}
+				}
+			}
+			r.Check(okKey, ix, u.Name+" looks the token up in the replica map of the query's keyspace", "replicas[qry.Keyspace()]",
+				"the replicas are taken from the map of keyspace `"+why+"` instead of the keyspace of the query being routed: a query on another keyspace (or from a session without a default keyspace) is not sent to its replicas first")
+			return true
+		})
+	}
+	if n == 0 {
+		r.Unresolved("token-aware Pick never indexes clusterMeta.replicas")
+	}
 }
